@@ -313,6 +313,19 @@ Proof.
 Qed.
 Print Assumptions interval_literal_tokens.
 
+(* since fix 19e2c2a a dialect without INTERVAL literals rejects them (interval_text_for false = None); what is emitted for
+   the others is interval_text, so the token theorem above covers every emitted interval *)
+Theorem interval_emitted_tokens : forall d sup styles n unit t,
+  interval_text_for sup ifields styles (digits_of n) unit = Some t ->
+  sup = true /\ exists st field, sql_lex d t = interval_tokens_of st (digits_of n) field.
+Proof.
+  intros d sup styles n unit t. unfold interval_text_for.
+  match goal with |- context [match ?x with Some _ => _ | None => _ end] => destruct x end; [|intro H; discriminate H].
+  destruct sup; [|intro H; discriminate H]. intro H.
+  split; [reflexivity|]. exact (interval_literal_tokens d styles n unit t H).
+Qed.
+Print Assumptions interval_emitted_tokens.
+
 (* every unit the lexer accepts is supported by translate_literal *)
 Theorem interval_unit_always_supported : forall styles dg u, In u iunits -> interval_text ifields styles dg u <> None.
 Proof.
@@ -396,34 +409,26 @@ Proof. exact emit_float_neg_tokens. Qed.
 Print Assumptions float_negative_tokens.
 
 (* embedded data: std.from_text format:json (Model/FromText.v map_json_primitive = transforms.rs from_text::map_json_primitive).
-   FULL STATEMENT (false, finding C08-N2): every cell reaches translate_literal as the literal of its value. *)
-Theorem json_cell_value_refuted :
-  exists v, map_json_primitive v = RNull /\ v <> JNull /\ v = JInt 9223372036854775808.
-Proof. eexists. split; [|split; [|reflexivity]]; [reflexivity | discriminate]. Qed.
-Print Assumptions json_cell_value_refuted.
-
-(* PARTIAL: every cell but an integer in (i64::MAX, u64::MAX], an array or an object becomes the literal of its value *)
-Theorem json_cell_value_partial : forall v, json_cell_kept v = true ->
-  match v with
-  | JNull => map_json_primitive v = RNull
-  | JBool b => map_json_primitive v = RBool b
-  | JInt z => (map_json_primitive v = RInt z /\ (I64_MIN_Z <= z <= I64_MAX_Z)%Z) \/
-              (map_json_primitive v = RFloat /\ (z < I64_MIN_Z \/ U64_MAX_Z < z)%Z)
-  | JReal => map_json_primitive v = RFloat
-  | JString s => map_json_primitive v = RString s
-  | JArray | JObject => False
-  end.
+   FULL STRENGTH since fix d86674e (json_cell_value_refuted / _partial described finding C08-N2: an integer in
+   (i64::MAX, u64::MAX], an array or an object became NULL): whatever literal an accepted cell becomes is the literal of
+   its value, and the rejected cells are exactly those three classes *)
+Theorem json_cell_value : forall v l, map_json_primitive v = Some l -> json_literal_of v = Some l.
 Proof. exact json_cell_literal. Qed.
-Print Assumptions json_cell_value_partial.
+Print Assumptions json_cell_value.
+
+Theorem json_cell_rejected : forall v, map_json_primitive v = None <->
+  match v with JInt z => (I64_MAX_Z < z <= U64_MAX_Z)%Z | JArray | JObject => True | _ => False end.
+Proof. exact json_cell_rejected_iff. Qed.
+Print Assumptions json_cell_rejected.
 
 (* a string cell and an i64 cell, end to end: document value -> literal -> SQL text -> value read by the database *)
 Theorem json_string_cell_end_to_end : forall d sq s,
-  exists t, emit_rlit sq (bs_escapes d) (map_json_primitive (JString s)) = Some t /\ sql_lex d t = [TString s].
+  exists l t, map_json_primitive (JString s) = Some l /\ emit_rlit sq (bs_escapes d) l = Some t /\ sql_lex d t = [TString s].
 Proof. exact json_string_cell_roundtrip. Qed.
 Print Assumptions json_string_cell_end_to_end.
 
 Theorem json_int_cell_end_to_end : forall d sq bs z, (I64_MIN_Z <= z <= I64_MAX_Z)%Z ->
-  exists t, emit_rlit sq bs (map_json_primitive (JInt z)) = Some t /\ int_of_tokens (sql_lex d t) = Some z.
+  exists l t, map_json_primitive (JInt z) = Some l /\ emit_rlit sq bs l = Some t /\ int_of_tokens (sql_lex d t) = Some z.
 Proof. exact json_int_cell_roundtrip. Qed.
 Print Assumptions json_int_cell_end_to_end.
 
